@@ -96,6 +96,14 @@ class Facts:
         return f
 
 
+def _canon_flag_call(txt):
+    """`pysnark.runtime.ignore_errors()` / `runtime.is_guard()` are the flags `ignore_errors()` / `is_guard()`"""
+    for f in ("ignore_errors()", "is_guard()"):
+        if txt.endswith("." + f):
+            return f
+    return txt
+
+
 def atoms_of(test, polarity):
     """Atomic (test, truth) consequences of `test == polarity` (conjunctive part only)."""
     if isinstance(test, ast.UnaryOp) and isinstance(test.op, ast.Not):
@@ -120,10 +128,15 @@ class Valuer:
         self.exact_int = False            # integer semantics: `x % modulus` is not x (Python-agreement rules of C05)
         self.uninterp = False             # unknown calls become uninterpreted function symbols (lock-step rule of C04)
         self.helpers = {}                 # name -> FunctionDef of module-level helpers evaluated in place (helper_alternatives)
+        self.split_disjunctions = False   # a disjunction of comparisons known to hold is split into its cases (C01 identities)
 
     # -------------------------------------------------------------- assumptions
     def assume(self, test, truth):
         for t, tr in atoms_of(test, truth):
+            if isinstance(t, ast.IfExp) and self.split_disjunctions:
+                # (A if c else B) has this truth value: the arm chosen by c has it (c is split on when it is not decided)
+                self.assume(t.body if self.decide(t.test) else t.orelse, tr)
+                continue
             if isinstance(t, ast.BoolOp):
                 # (A and B) is False / (A or B) is True: if all operands but one are decided, the last one follows
                 want_rest = isinstance(t.op, ast.And)      # And False: others True -> last False
@@ -141,12 +154,16 @@ class Valuer:
                     self.assume(undecided[0], not want_rest)
                 elif not settled and not undecided:
                     raise Contradiction(norm(t))
+                elif not settled and len(undecided) >= 2 and self.split_disjunctions and all(
+                        isinstance(u_, ast.Compare) for u_ in undecided):
+                    # (A or B) known true with neither decided (e.g. `v == 0 or v == 1` left by a refusal of non-bits): split
+                    raise NeedCase(undecided[0])
                 self.facts.truth[norm(t)] = tr
                 continue
             self._assume1(t, tr)
 
     def _assume1(self, t, truth):
-        txt = norm(t)
+        txt = _canon_flag_call(norm(t))
         if txt in self.facts.truth and self.facts.truth[txt] != truth:
             raise Contradiction(txt)
         if isinstance(t, ast.Name) and t.id in self.bool_defs:
@@ -237,7 +254,7 @@ class Valuer:
         if isinstance(test, ast.BoolOp):
             vals = [self.decide(v) for v in test.values]
             return all(vals) if isinstance(test.op, ast.And) else any(vals)
-        txt = norm(test)
+        txt = _canon_flag_call(norm(test))
         if txt in self.facts.truth:
             return self.facts.truth[txt]
         if isinstance(test, ast.Compare) and len(test.ops) == 1 and isinstance(test.ops[0], (ast.Is, ast.IsNot)) \
@@ -538,7 +555,16 @@ class Valuer:
             old = self.env.get("__pow2N__")
             self.env["__pow2N__"] = P.sym(T)
             try:
-                return self.val(n2)
+                r_ = self.val(n2)
+                # a local bound to the power (limit = 1 << N) carries the symbolic pow2(<N>): the same T
+                if isinstance(r_, P):
+                    try:
+                        key = "pow2(%s)" % self._p(N)
+                        if key in r_.symbols():
+                            r_ = r_.subst({key: P.sym(T)})
+                    except Exception:
+                        pass
+                return r_
             finally:
                 if old is None:
                     self.env.pop("__pow2N__", None)
@@ -708,6 +734,20 @@ class Valuer:
             z2 = z.subst(self.facts.subst) if self.facts.subst else z
             if p == z2 or p == -z2:
                 return P()
+        # a known-zero polynomial that is linear in one of its symbols (x - y - 1 == 0) is solved for it and substituted
+        for z in self.facts.zero:
+            z2 = z.subst(self.facts.subst) if self.facts.subst else z
+            if p.is_zero() or z2.is_zero():
+                continue
+            for x_ in sorted(z2.symbols()):
+                if x_ not in p.symbols():
+                    continue
+                lin = [(m_, c_) for m_, c_ in z2.t.items() if any(s_ == x_ for s_, _e in m_)]
+                if len(lin) == 1 and lin[0][0] == ((x_, 1),):
+                    c_ = lin[0][1]
+                    rest = z2 - P({lin[0][0]: c_})
+                    p = p.subst({x_: rest * P.const(-1 / c_)})
+                    break
         for name, a in self.invs.items():
             if name not in p.symbols():
                 continue
@@ -872,6 +912,12 @@ def replay(v, path, unknown="?%s"):
                 v.env[name] = P.sym((unknown % name) + ("@%d" % getattr(node, "lineno", 0)))
         else:
             _, t, pol = st
+            # a case split made before the locals of this test were bound (all_cases assumes its extra atoms first) recorded
+            # only a truth value: now that the operands have values, derive the arithmetic fact as well
+            for c_ in ast.walk(t):
+                if isinstance(c_, ast.Compare) and norm(c_) in v.facts.truth and any(
+                        isinstance(x_, ast.Name) and x_.id in assigned for x_ in ast.walk(c_)):
+                    v._assume1(c_, v.facts.truth[norm(c_)])
             v.assume(t, pol)
     return v
 
